@@ -172,6 +172,14 @@ where
 {
     let (ret, switch) = execution(|execution| {
         let ret = f(execution);
+
+        // A thread that unwinds from a panic keeps running: the execution has
+        // failed, and switching away from a destructor would leave the unwind
+        // suspended for good.
+        if std::thread::panicking() {
+            return (ret, false);
+        }
+
         let switch = execution.schedule();
 
         trace!(?switch, "branch");
